@@ -2,6 +2,8 @@ package op
 
 import (
 	"fmt"
+	"slices"
+	"strings"
 
 	"github.com/berquerant/crd/errorx"
 	"github.com/berquerant/crd/logx"
@@ -147,6 +149,10 @@ func AllScales() []*Scale {
 		scales[i], _ = NewScale(k)
 		i++
 	}
+	// map iteration order is random: list the scales in a fixed order
+	slices.SortFunc(scales, func(a, b *Scale) int {
+		return strings.Compare(a.Key.String(), b.Key.String())
+	})
 	return scales
 }
 
